@@ -343,3 +343,5 @@ def run(rep, tier):
     c01.rule_frames(c01._Rename(rep, {'R5': 'R5', 'R8': 'R6'}), idx)
     # R7: a user label that collides with a generated one sends a branch / call into the wrong code (import of C01-R4)
     c01.rule_labels(c01._Rename(rep, {'R4': 'R7'}), idx)
+    # R8: an actual stored through a stale breg lands anywhere in memory (import of C01-R14)
+    c01.rule_call_registers(c01._Rename(rep, {'R14': 'R8'}), idx)
